@@ -30,6 +30,19 @@ COEFS = [  # (L, a_j generator)
 H0S = [1.0, 0.1]
 
 
+RTYPE = {'v': 'float'}      # how the (real) step ratio is handed to the library: 'float' | 'int' | 'int64'
+
+
+def lib_ratio(ratio):
+    """the documented ratio is a number: an integer-typed 2 is the same ratio as 2.0"""
+    t = RTYPE['v']
+    if t == 'int':
+        return int(ratio)
+    if t == 'int64':
+        return np.int64(int(ratio))
+    return ratio
+
+
 def exact_of(z):
     return QA.of(complex(z)) if isinstance(z, complex) else QA.of(float(z))
 
@@ -41,10 +54,10 @@ def weight_check(ratio, step, order, nt):
     """Exact annihilation identities for the real rule with nt effective terms.
     returns (problem or None, kappa, w1norm, singular, worst_units)"""
     from numdifftools.extrapolation import Richardson
-    key = (ratio, step, order, nt)
+    key = (ratio, step, order, nt, RTYPE['v'])
     if key in _WCACHE:
         return _WCACHE[key]
-    w = np.asarray(Richardson(step_ratio=ratio, step=step, order=order, num_terms=nt).rule(nt + 1))
+    w = np.asarray(Richardson(step_ratio=lib_ratio(ratio), step=step, order=order, num_terms=nt).rule(nt + 1))
     problem = None
     if w.shape != (nt + 1,):
         res = ('rule has shape %r for %d terms' % (w.shape, nt), 1.0, 1.0, False, 0.0)
@@ -112,7 +125,7 @@ def behaviour(ratio, step, order, num_terms, length, ncols, kappa, w1, singular)
     """Run the real Richardson on model sequences.  returns (problem or None, n_calls)"""
     from numdifftools.extrapolation import Richardson
     nt = min(num_terms, length - 1)
-    rich = Richardson(step_ratio=ratio, step=step, order=order, num_terms=num_terms)
+    rich = Richardson(step_ratio=lib_ratio(ratio), step=step, order=order, num_terms=num_terms)
     cplx = isinstance(ratio, complex)
     calls = 0
     for h0 in H0S:
@@ -171,7 +184,8 @@ def behaviour(ratio, step, order, num_terms, length, ncols, kappa, w1, singular)
 
 
 def run_case(case):
-    ratio, step, order, num_terms, length, ncols = case
+    ratio, step, order, num_terms, length, ncols = case[:6]
+    RTYPE['v'] = case[6] if len(case) > 6 else 'float'
     nt = min(num_terms, length - 1)
     wprob, kappa, w1, singular, worst = weight_check(ratio, step, order, nt)
     bprob, calls = behaviour(ratio, step, order, num_terms, length, ncols, kappa, w1, singular)
@@ -181,9 +195,10 @@ def run_case(case):
 def work(chunk):
     acc = fw.Acc()
     for case in chunk:
-        ratio, step, order, num_terms, length, ncols = case
+        ratio, step, order, num_terms, length, ncols = case[:6]
         wprob, bprob, singular, worst, calls, nt = run_case(case)
-        kind = 'complex' if isinstance(ratio, complex) else 'real'
+        RTYPE['v'] = 'float'
+        kind = 'complex' if isinstance(ratio, complex) else ('real' if len(case) <= 6 else 'real-' + case[6])
         acc.case(case, nontrivial=(not singular and nt > 0), n_eval=max(calls, 1),
                  cell=['%s/terms=%d' % (kind, nt), '%s/spacing=%d' % (kind, step)],
                  outcome=(singular, nt, length - nt))
@@ -192,6 +207,9 @@ def work(chunk):
         else:
             acc.maxi('worst_weight_residual_in_allowance_units', worst)
         jc = dict(ratio=ratio, step=step, order=order, num_terms=num_terms, length=length, ncols=ncols)
+        if len(case) > 6:
+            jc['ratio_type'] = case[6]
+            kind = 'real-' + case[6]
         rank = num_terms * 1000 + length * 10 + ncols
         if wprob:
             acc.violation('C07:%s:weights:terms=%d' % (kind, nt), jc, wprob, rank)
@@ -250,11 +268,19 @@ def run(ctx):
                     for length in lengths:
                         for ncols in ((1, 3) if ctx.quick else (1, 2, 3)):
                             cases.append((ratio, step, order, nt, length, ncols))
+    # the same real ratios handed over as integer-typed numbers (Python int, np.int64)
+    for ratio, rtype in ((2.0, 'int'), (3.0, 'int'), (4.0, 'int64'), (10.0, 'int')):
+        for step in (1, 2):
+            for order in (1, 2, 4):
+                for nt in range(0, 4):
+                    for length in (1, nt + 1, nt + 3, 12):
+                        cases.append((ratio, step, order, nt, length, 2, rtype))
     acc = ctx.pmap(work, cases, chunk=100)
     acc.merge(ctx.pmap(work_history, [0], chunk=1))
     for c in cases[:2] + cases[len(cases) // 2:len(cases) // 2 + 2] + cases[-2:]:
         acc.sample(dict(ratio=c[0], spacing=c[1], order=c[2], num_terms=c[3], length=c[4], columns=c[5]))
     req = ['%s/terms=%d' % (k, t) for k in ('real', 'complex') for t in range(1, 6)] + ['history/richardson-object-reuse']
+    req += ['real-int/terms=2', 'real-int64/terms=3']
     rule = ('full product of %d ratios (8 real, 12 complex) x spacing 1..4 x order 1..8 x num_terms 0..5 x '
             'lengths x columns; exact Gaussian-rational annihilation identities on the float weights; model '
             'sequences L + sum a_j h^(order+spacing j) (4 coefficient patterns, 2 start steps) through the real '
@@ -280,5 +306,7 @@ def replay(case):
     r = case['ratio']
     ratio = complex(r['re'], r['im']) if isinstance(r, dict) else float(r)
     c = (ratio, case['step'], case['order'], case['num_terms'], case['length'], case['ncols'])
+    if case.get('ratio_type'):
+        c = c + (case['ratio_type'],)
     wprob, bprob, singular, worst, calls, nt = run_case(c)
     return not (wprob or bprob), 'case=%r weights:%r call:%r singular=%r' % (c, wprob, bprob, singular)
